@@ -92,6 +92,14 @@ def run_family(run, exe, spec, prop, configs, consts_of, wanted_inv, wanted_or, 
                 run.violation(tag, path, "%s refutes %s in configuration %s; the real code follows the counterexample in lock-step to the end (label %s)" % (spec, f["name"], name, f["label"]))
             else:
                 run.note("spec-level refutation NOT reproduced on the code (%s): %s" % (tag, res["mismatch"]))
+        if out["res"]["mismatch"]:
+            nloc = 20000 if run.tier == "quick" else 300000
+            resx = mulib.run_harness_env(exe, ["random", str(nloc), str(seed() + 7), out["init"], REPLAYS], out["env"])
+            run.add("evaluations", nloc); run.add("distinct_nontrivial", resx["stats"].get("nontrivial", 0))
+            run.cov.setdefault("local_exploration_after_divergence", []).append({"config": name, "runs": nloc, "violations": len(resx["viols"])})
+            for v in resx["viols"]:
+                if v[0] in wanted_or or v[0] == "O-crash":
+                    run.violation("%s|%s|explore %s" % (v[0], v[1], name), v[4], v[5])
         try:
             os.unlink(out["sched"])
         except OSError:
